@@ -67,10 +67,14 @@ DesigSet(GG, t) == {i \in 1..Len(GG) : Accepts(GG[i], t)}
 \* the group the metadata designates for t (0 = none)
 Designated(GG, t) == IF DesigSet(GG, t) = {} THEN 0 ELSE Min(DesigSet(GG, t))
 
-Nodes == cfg \div 10
-ReplicaN == LET r == cfg % 10 IN IF r = 0 THEN 1 ELSE IF r > Nodes THEN Nodes ELSE r
-\* "shardN := 1; for shardN*replicaN%len(data.DataNodes) != 0 { shardN++ }"
-ShardN == Min({k \in 1..Nodes : (k * ReplicaN) % Nodes = 0})
+\* Data.CreateShardGroup: replicaN clipped to 1..nodes, then
+\* "shardN := 1; for shardN*replicaN%len(data.DataNodes) != 0 { shardN++ }"   (constant table: evaluated once)
+ShardNTab == [c \in NodeCfgs |->
+                LET nodes == c \div 10
+                    r == c % 10
+                    repl == IF r = 0 THEN 1 ELSE IF r > nodes THEN nodes ELSE r
+                IN Min({k \in 1..nodes : (k * repl) % nodes = 0})]
+ShardN == ShardNTab[cfg]
 
 \* Data.CreateShardGroup once it has decided to create: aligned range clipped against every
 \* group that is not deleted (truncated groups count up to their truncation time)
@@ -106,15 +110,15 @@ TooOld(t, cut) == t <= cut
 
 HM(s, n) == IF n = 1 THEN 0 ELSE CHOOSE r \in 0..(n - 1) : (100 * s + 10 * n + r) \in HashCodes
 
-\* sort.Sort(meta.ShardGroupInfos): by truncated end, then start
+\* sort.Sort(meta.ShardGroupInfos): by truncated end, then start.  The code sorts lazily inside ShardGroupAt;
+\* the groups of one list have distinct keys (disjoint non-empty write ranges), so the sorted order does not
+\* depend on the insertion order and the model keeps the list sorted: Add = insert at its place.
 Less(GG, a, b) ==
   LET ea == EffEnd(GG[a])  eb == EffEnd(GG[b])
   IN IF ea = eb THEN GG[a].start < GG[b].start ELSE ea < eb
 InsertSorted(GG, S, x) ==
   LET k == Cardinality({j \in 1..Len(S) : ~Less(GG, x, S[j])})
   IN SubSeq(S, 1, k) \o <<x>> \o SubSeq(S, k + 1, Len(S))
-RECURSIVE SortL(_, _, _)
-SortL(GG, L, acc) == IF L = <<>> THEN acc ELSE SortL(GG, SubSeq(L, 2, Len(L)), InsertSorted(GG, acc, L[1]))
 
 \* sort.Search(n, f): i, j := 0, n; for i < j { h := (i+j)/2; if !f(h) { i = h+1 } else { j = h } }; return i
 RECURSIVE Bisect(_, _, _)
@@ -125,21 +129,18 @@ Bisect(P, i, j) ==
 \* key of the binary search / predicate of the linear fallback
 SearchEnd(g) == IF "truncIgnored" \in Dev THEN g.end ELSE EffEnd(g)
 
-\* sgList.ShardGroupAt over the list L (sequence of group ids in insertion order); 0 = nil
-SGAt(GG, L, t) ==
-  IF L = <<>> THEN 0
+\* sgList.ShardGroupAt over the sorted list S (sequence of group ids); 0 = nil
+SGAt(GG, S, t) ==
+  IF S = <<>> THEN 0
   ELSE
-    LET S == SortL(GG, L, <<>>)
-        n == Len(S)
-        P == [k \in 1..n |-> SearchEnd(GG[S[k]]) > t]
-        idx == Bisect(P, 0, n) + 1
-        earliest == Min({GG[L[k]].start : k \in 1..Len(L)})
-        latest == Max({GG[L[k]].end : k \in 1..Len(L)})
-        hits == {k \in 1..n : GG[S[k]].start <= t /\ t < SearchEnd(GG[S[k]])}
-    IN IF idx = n + 1 \/ t < GG[S[idx]].start
-       THEN IF t < earliest \/ t > latest THEN 0
-            ELSE IF hits = {} THEN 0 ELSE S[Min(hits)]
-       ELSE S[idx]
+    LET n == Len(S)
+        idx == Bisect([k \in 1..n |-> SearchEnd(GG[S[k]]) > t], 0, n) + 1
+    IN IF idx <= n /\ t >= GG[S[idx]].start THEN S[idx]
+       ELSE \* not found by the search: "t is not in range" shortcut, then the linear search
+         LET earliest == Min({GG[S[k]].start : k \in 1..n})
+             latest == Max({GG[S[k]].end : k \in 1..n})
+             hits == {k \in 1..n : GG[S[k]].start <= t /\ t < SearchEnd(GG[S[k]])}
+         IN IF t < earliest \/ t > latest \/ hits = {} THEN 0 ELSE S[Min(hits)]
 
 \* first loop of MapShards: fetch or create the groups the batch needs
 RECURSIVE Loop1(_, _, _, _, _)
@@ -148,7 +149,7 @@ Loop1(i, b, cut, M, L) ==
   ELSE LET t == b[i][2] IN
        IF TooOld(t, cut) \/ SGAt(M.G, L, t) # 0 THEN Loop1(i + 1, b, cut, M, L)
        ELSE LET c == ClientCreate(M, t) IN
-            Loop1(i + 1, b, cut, [G |-> c.G, nsh |-> c.nsh], Append(L, c.g))
+            Loop1(i + 1, b, cut, [G |-> c.G, nsh |-> c.nsh], InsertSorted(c.G, L, c.g))
 
 \* second loop: <<group id, shard id>> per batch position, <<0, 0>> = dropped
 RouteOf(p, cut, GG, L) ==
